@@ -34,7 +34,25 @@ def random_doc(rng, size='small', version=None, layout=None, ifdata=None, a2ml=N
     opts = docgen.GenOptions(version=version, max_depth=depth, max_repeat=rep, p_optional=popt, ifdata=ifdata, a2ml=a2ml,
                              string_classes=strings or ['plain', 'empty', 'escapes', 'dquote', 'utf8'], **kw)
     node = docgen.gen_tree(sp, rng, opts)
+    if rng.random() < 0.85:
+        order_positions(node)
     lay = layout or docgen.Layout(mode=rng.choice(['canonical', 'random', 'oneline']), crlf=rng.random() < 0.2,
                                   comments=rng.choice([None, None, 'block-level', 'everywhere']))
     text, toks = docgen.render(node, rng, lay, sp)
     return node, text, toks
+
+
+def order_positions(node):
+    """give the position-restricted children of every block ascending positions in file order, so that the writer
+    has nothing to reorder (the reordering case is kept for a minority of documents: known finding)"""
+    from checks import loadlib
+    pt = loadlib.pos_types()
+    for n, _parent in node.walk():
+        pos = 1
+        for k in n.kids:
+            ent = pt.get(k.type.encode()) if k.type else None
+            if ent and ent[0] == 'field':
+                v = k.fields[ent[1]]
+                v.value = pos
+                v.text = str(pos)
+                pos += 1
